@@ -645,7 +645,17 @@ def tail(n):
     """the value expression of a block-like node (last expr), looking through blocks"""
     n = strip(n)
     while n.get("k") == "Block" and n.get("expr") is not None:
+        blk = n
         n = strip(n["expr"])
+        # `{ ..; let r = E; r }` evaluates to E
+        r = path_res(n) if n.get("k") == "Path" else None
+        if r and r.get("r") == "local":
+            for st in blk.get("stmts", []):
+                p = st.get("pat", {}) if st.get("k") == "SLet" else {}
+                if p.get("k") == "PBinding" and p.get("id") == r.get("id") and "init" in st and "els" not in st and \
+                        not str(p.get("mode", "")).rstrip(")").endswith("Mut"):
+                    n = strip(st["init"])
+                    break
     return n
 
 
